@@ -19,6 +19,50 @@ pub enum HStrip {
     All,
 }
 
+/// The strip policy as MANUAL.txt states it (not asked of the implementation): `safe` keeps the seven display chunks,
+/// a strip list removes what it names, a keep list keeps what it names, `all` keeps nothing, no policy keeps everything
+pub fn spec_keeps(strip: &HStrip, name: &[u8; 4]) -> bool {
+    const DISPLAY: [&[u8; 4]; 7] = [b"cICP", b"iCCP", b"sRGB", b"pHYs", b"acTL", b"fcTL", b"fdAT"];
+    match strip {
+        HStrip::None => true,
+        HStrip::Strip(l) => !l.contains(name),
+        HStrip::Safe => DISPLAY.contains(&name),
+        HStrip::Keep(l) => l.contains(name),
+        HStrip::All => false,
+    }
+}
+
+/// The rendering intent of a profile oxipng may replace by an sRGB chunk: byte 67 of a profile whose ID (bytes 84..100)
+/// is one of the four libpng knows, or that has no ID and one of three known (CRC-32, length) pairs
+pub fn spec_srgb_intent(icc: &[u8]) -> Option<u8> {
+    let intent = *icc.get(67)?;
+    let id = icc.get(84..100)?;
+    if crate::corr_chunks::KNOWN_SRGB_IDS.iter().any(|k| k == id) {
+        return Some(intent);
+    }
+    if id.iter().all(|b| *b == 0) {
+        let mut h = crc32fast::Hasher::new();
+        h.update(icc);
+        let crc = h.finalize();
+        if crate::corr_chunks::KNOWN_BAD_PROFILES.contains(&(crc, icc.len())) {
+            return Some(intent);
+        }
+    }
+    None
+}
+
+/// a caBX chunk holding a C2PA manifest: a `jumb` superbox whose first box is a `jumd` description box of type `c2pa`
+/// (box = 4-byte length incl. header, 4-byte type; the description box starts with the 4-byte type `c2pa`)
+pub fn spec_is_c2pa(data: &[u8]) -> bool {
+    fn boxed<'a>(d: &'a [u8], ty: &[u8; 4]) -> Option<&'a [u8]> {
+        if d.len() < 8 { return None; }
+        let len = u32::from_be_bytes(d[0..4].try_into().unwrap()) as usize;
+        if len < 8 || len > d.len() || &d[4..8] != ty { return None; }
+        Some(&d[8..len])
+    }
+    boxed(data, b"jumb").and_then(|inner| boxed(inner, b"jumd")).map_or(false, |desc| desc.get(0..4) == Some(&b"c2pa"[..]))
+}
+
 #[derive(Clone, Debug)]
 pub struct HOpts {
     pub fix_errors: bool,
